@@ -55,6 +55,13 @@ structure SBInv (k : Nat) (s : SB) : Prop where
   eout : ∀ b ∈ s.eout, b.length ≤ max k 1
   eb : s.eb.length ≤ max k 1
 
+theorem mem_snoc_le {α : Type} (L : List (List α)) (l : List α) (n : Nat)
+    (h1 : ∀ b ∈ L, b.length ≤ n) (h2 : l.length ≤ n) : ∀ b ∈ L ++ [l], b.length ≤ n := by
+  intro b hb
+  rcases List.mem_append.1 hb with hb | hb
+  · exact h1 b hb
+  · rw [List.mem_singleton.1 hb]; exact h2
+
 theorem sbStep_spec (k : Nat) (graph : String) (s : SB) (el : GElem) (h : SBInv k s) :
     SBInv k (sbStep k graph s el) ∧
     allV (sbStep k graph s el) = allV s ++ (fV graph el).toList ∧
@@ -68,18 +75,17 @@ theorem sbStep_spec (k : Nat) (graph : String) (s : SB) (el : GElem) (h : SBInv 
     cases hv : el.v with
     | some x =>
       simp only
-      by_cases hk : s.vb.length ≥ k <;> by_cases hval : validVertex x = true <;>
-        simp only [hk, hval, if_true, if_false] <;>
-        refine ⟨⟨?_, ?_, ?_, ?_⟩, ?_, ?_⟩ <;>
-        first
-          | assumption
-          | (simp [allV, allE]; done)
-          | (intro b hb; simp only [List.mem_append, List.mem_singleton] at hb
-             rcases hb with hb | hb
-             · exact h1 b hb
-             · subst hb; exact h2)
-          | (simp; omega)
-          | (simp)
+      by_cases hk : s.vb.length ≥ k
+      · by_cases hval : validVertex x = true
+        · simp only [hk, hval, if_true]
+          exact ⟨⟨mem_snoc_le _ _ _ h1 h2, by simp; omega, h3, h4⟩, by simp [allV], by simp [allE]⟩
+        · simp only [hk, hval, if_true, if_false]
+          exact ⟨⟨mem_snoc_le _ _ _ h1 h2, by simp, h3, h4⟩, by simp [allV], by simp [allE]⟩
+      · by_cases hval : validVertex x = true
+        · simp only [hk, hval, if_true, if_false]
+          exact ⟨⟨h1, by simp; omega, h3, h4⟩, by simp [allV], by simp [allE]⟩
+        · simp only [hk, hval, if_false]
+          exact ⟨⟨h1, h2, h3, h4⟩, by simp [allV], by simp [allE]⟩
     | none =>
       cases he : el.e with
       | none =>
@@ -87,19 +93,17 @@ theorem sbStep_spec (k : Nat) (graph : String) (s : SB) (el : GElem) (h : SBInv 
         exact ⟨⟨h1, h2, h3, h4⟩, by simp [allV], by simp [allE]⟩
       | some x =>
         simp only
-        by_cases hk : s.eb.length ≥ k <;>
-        by_cases hval : validDataElement (if x.gid = "" then { x with gid := el.uuid } else x) = true <;>
-          simp only [hk, hval, if_true, if_false] <;>
-          refine ⟨⟨?_, ?_, ?_, ?_⟩, ?_, ?_⟩ <;>
-          first
-            | assumption
-            | (simp [allV, allE]; done)
-            | (intro b hb; simp only [List.mem_append, List.mem_singleton] at hb
-               rcases hb with hb | hb
-               · exact h3 b hb
-               · subst hb; exact h4)
-            | (simp; omega)
-            | (simp)
+        by_cases hk : s.eb.length ≥ k
+        · by_cases hval : validDataElement (if x.gid = "" then { x with gid := el.uuid } else x) = true
+          · simp only [hk, hval, if_true]
+            exact ⟨⟨h1, h2, mem_snoc_le _ _ _ h3 h4, by simp; omega⟩, by simp [allV], by simp [allE]⟩
+          · simp only [hk, hval, if_true, if_false]
+            exact ⟨⟨h1, h2, mem_snoc_le _ _ _ h3 h4, by simp⟩, by simp [allV], by simp [allE]⟩
+        · by_cases hval : validDataElement (if x.gid = "" then { x with gid := el.uuid } else x) = true
+          · simp only [hk, hval, if_true, if_false]
+            exact ⟨⟨h1, h2, h3, by simp; omega⟩, by simp [allV], by simp [allE]⟩
+          · simp only [hk, hval, if_false]
+            exact ⟨⟨h1, h2, h3, h4⟩, by simp [allV], by simp [allE]⟩
 
 theorem foldl_sbStep_spec (k : Nat) (graph : String) (xs : List GElem) :
     ∀ s : SB, SBInv k s →
@@ -170,11 +174,15 @@ theorem sbEdges_of_valid (graph : String) (xs : List GElem)
     (h : ∀ el ∈ xs, el.g = graph ∧ el.v = none ∧ ∃ e, el.e = some e ∧ validEdge e = true) :
     sbEdges graph xs = xs.filterMap (·.e) := by
   rw [sbEdges_eq]
-  apply List.filterMap_congr
-  intro el hel
-  obtain ⟨hg, hv, e, he, hval⟩ := h el hel
-  simp only [validEdge, Bool.and_eq_true, bne_iff_ne, ne_eq] at hval
-  obtain ⟨⟨⟨⟨h1, h2⟩, _⟩, _⟩, h5⟩ := hval
-  simp [fE, hg, hv, he, h1, validDataElement, h2, h5]
+  induction xs with
+  | nil => rfl
+  | cons el xs ih =>
+    obtain ⟨hg, hv, e, he, hval⟩ := h el (List.mem_cons_self ..)
+    have ih' := ih (fun el' hel' => h el' (List.mem_cons_of_mem _ hel'))
+    simp only [validEdge, Bool.and_eq_true, bne_iff_ne, ne_eq] at hval
+    obtain ⟨⟨⟨⟨h1, h2⟩, _⟩, _⟩, h5⟩ := hval
+    have : fE graph el = some e := by
+      simp [fE, hg, hv, he, h1, validDataElement, h2, h5]
+    simp only [List.filterMap_cons, this, he, ih']
 
 end Grip.Props.C18.Lemmas
